@@ -11,14 +11,14 @@ import numpy as np
 from pymatgen.core import Lattice
 from pymatgen.symmetry.groups import PointGroup
 
-from . import core, gem
+from . import core, gem, translate
 from .core import Outcome, PropertySpec, enc
 
 from gemdat.orientations import Orientations  # noqa: E402
 from gemdat.utils import cartesian_to_spherical, fft_autocorrelation  # noqa: E402
 
 PID = 'C18'
-MODULES = ['GProofs.Geometry', 'GProofs.C18']
+MODULES = ['GProofs.Geometry', 'GProofs.C18', 'GProofs.C18Gen']
 POINT_GROUPS = ['1', '-1', '2/m', 'mmm', '4/mmm', 'm-3m']
 TETRA = np.array([[1, 1, 1], [1, -1, -1], [-1, 1, -1], [-1, -1, 1]]) / np.sqrt(3)
 
@@ -212,6 +212,7 @@ SPEC = PropertySpec(
     modules=MODULES,
     run=run,
     replay=replay,
+    gen=translate.gen_for('FormulasC18'),
     classify=classify,
     rule=('random molecular trajectories: 1-2 tetrahedral centre/satellite clusters (bond 0.9-1.5 A, random orientation changing in time, '
           'centres on a k/64 grid, half of them on a cell face so that bonds cross it), 2-7 frames, pool lattices (widths >= 6 A), '
